@@ -459,10 +459,18 @@ deriving DecidableEq, Repr
 
 def clientInKeySource (clientManaged inResponse inMedia inSession : Bool) : KeySource :=
   if clientManaged then .own
-  else if inResponse then .response
-  else if inMedia then .mediaSdp
-  else if inSession then .sessionSdp
-  else .missing
+  else if Sec.keySourceResponseFirst then
+    -- the KeyMgmt header of the SETUP response carries the ROC of SETUP time; the SDP attributes date
+    -- from DESCRIBE and are a fallback only when the header is absent
+    (if inResponse then .response
+     else if inMedia then .mediaSdp
+     else if inSession then .sessionSdp
+     else .missing)
+  else
+    (if inMedia then .mediaSdp
+     else if inResponse then .response
+     else if inSession then .sessionSdp
+     else .missing)
 
 /-- the client's incoming context: `none` = SETUP returns an error -/
 def clientInCtx (src : KeySource) (own : Ctx) (resp media sess : Option Message) (now : Int) : Option Ctx :=
